@@ -12,7 +12,7 @@ import (
 func init() {
 	register(&propDef{
 		ID:          "C07",
-		Explanation: "Decides pairing, provenance and counter agreement — the structural reasons the source map is right — for ALL sites: R1 on every emission path of the generator (GEM), every write of a Go expression's text is the first text of its write and is immediately followed by sourceMap.Add(that same expression, the range returned by that very write), and every Add is preceded by such a write; R2 no parser.Expression value is fabricated inside the generator (expressions and their ranges come from the parser); R3 in SourceMap.Add the source/target column and index counters advance by the same rune length, both index counters take the newline step, and every source→target store has the mirrored target→source store; in the range writer's write, index and column advance by the same length and a newline resets the column and increments the line; R4 symbol ranges run from the first emission's start to the last emission's end with nothing emitted after registration; R5 the range writer returns the range of the text argument alone. NOT decided: byte equality of mapped positions on concrete files.",
+		Explanation: "Decides pairing, provenance and counter agreement — the structural reasons the source map is right — for ALL sites: R1 on every emission path of the generator (GEM), every write of a Go expression's text is the first text of its write and is immediately followed by sourceMap.Add(that same expression, the range returned by that very write), and every Add is preceded by such a write; R2 no parser.Expression value is fabricated inside the generator (expressions and their ranges come from the parser); R3 in SourceMap.Add the source/target column and index counters advance by the same rune length, both index counters take the newline step, and every source→target store has the mirrored target→source store; in the range writer's write, index and column advance by the same length and a newline resets the column and increments the line; R4 symbol ranges run from the first emission's start to the last emission's end with nothing emitted after registration; R5 the range writer returns the range of the text argument alone. R6 the generator rewrites attribute lists only on a deep copy of the parsed ones (the copier recurses into every nested attribute list), so a second generation of the same parsed file maps the same expressions. R7 the range writer's raw write sends every rune of its argument to the output (no skipped or conditional runes). NOT decided: byte equality of mapped positions on concrete files.",
 		Assumptions: []string{"parser ranges are faithful (C06)", "utf8.RuneLen/EncodeRune agree on rune length"},
 		Trusted:     []string{"go/types", "x/tools go/packages"},
 		Run:         runC07,
@@ -23,6 +23,8 @@ func runC07(c *Ctx) {
 	c.load("./generator", "./parser/v2")
 	gMap(c, "C07.R1")
 	fabricatedExpressions(c, "C07.R2")
+	deepCopyBeforeMutation(c, "C07.R6")
+	rawWriteCopiesEveryRune(c, "C07.R7")
 	counterAgreement(c, "C07.R3")
 	gSymbolRanges(c, "C07.R4")
 	rwLayer(c, "C07.R5")
@@ -345,4 +347,290 @@ func isRuneLenVar(fd *ast.FuncDecl, name string) bool {
 		return true
 	})
 	return res
+}
+
+// deepCopyBeforeMutation: the generator rewrites attribute lists in place (a class={…} expression is replaced by a
+// reference to the hoisted variable). It may only do that on a DEEP copy of the parsed attributes: a shallow copy
+// shares the Then/Else slices of conditional attributes with the parsed template, so the first generation edits the
+// tree — a second generation of the same parsed file (watch mode, the language server) then no longer sees the user's
+// class expression, and its source-map entries are gone.
+func deepCopyBeforeMutation(c *Ctx, rule string) {
+	g := c.gem()
+	info := g.info
+	pp := c.pkg("parser/v2")
+	attrIface, _ := pp.Types.Scope().Lookup("Attribute").(*types.TypeName)
+	if attrIface == nil {
+		c.viol(rule, "anchor-lost:parser.Attribute", "", "interface parser.Attribute not found")
+		return
+	}
+	isAttrSlice := func(t types.Type) bool {
+		sl, ok := t.Underlying().(*types.Slice)
+		return ok && types.Identical(sl.Elem(), attrIface.Type())
+	}
+	// the attribute kinds: types that the generator asserts a parser.Attribute value to (the interface itself has only
+	// a Write method, which every node implements)
+	assertedFromAttribute := map[string]bool{}
+	for _, gf := range g.order {
+		ast.Inspect(gf.Decl.Body, func(x ast.Node) bool {
+			switch x := x.(type) {
+			case *ast.TypeAssertExpr:
+				if x.Type != nil {
+					if t := info.TypeOf(x.X); t != nil && types.Identical(t, attrIface.Type()) {
+						if nt, ok := info.TypeOf(x.Type).(*types.Named); ok {
+							assertedFromAttribute[nt.Obj().Name()] = true
+						}
+					}
+				}
+			case *ast.TypeSwitchStmt:
+				var subj ast.Expr
+				switch a := x.Assign.(type) {
+				case *ast.AssignStmt:
+					subj = a.Rhs[0].(*ast.TypeAssertExpr).X
+				case *ast.ExprStmt:
+					subj = a.X.(*ast.TypeAssertExpr).X
+				}
+				if t := info.TypeOf(subj); t != nil && types.Identical(t, attrIface.Type()) {
+					for _, cl := range x.Body.List {
+						for _, te := range cl.(*ast.CaseClause).List {
+							if nt, ok := info.TypeOf(te).(*types.Named); ok {
+								assertedFromAttribute[nt.Obj().Name()] = true
+							}
+						}
+					}
+				}
+			}
+			return true
+		})
+	}
+	// nested attribute lists: fields of type []Attribute in structs that implement Attribute
+	type nested struct{ typ, field string }
+	var nestedFields []nested
+	for _, nm := range pp.Types.Scope().Names() {
+		tn, ok := pp.Types.Scope().Lookup(nm).(*types.TypeName)
+		if !ok {
+			continue
+		}
+		st, ok := tn.Type().Underlying().(*types.Struct)
+		if !ok || !types.Implements(tn.Type(), attrIface.Type().Underlying().(*types.Interface)) || !assertedFromAttribute[tn.Name()] {
+			continue
+		}
+		for i := 0; i < st.NumFields(); i++ {
+			if isAttrSlice(st.Field(i).Type()) {
+				nestedFields = append(nestedFields, nested{nm, st.Field(i).Name()})
+			}
+		}
+	}
+	// mutators: functions with a []Attribute parameter that assign to its elements
+	mutators := map[types.Object]*GFunc{}
+	for _, gf := range g.order {
+		for _, prm := range gf.Decl.Type.Params.List {
+			if t := info.TypeOf(prm.Type); t == nil || !isAttrSlice(t) {
+				continue
+			}
+			for _, nmID := range prm.Names {
+				pobj := info.Defs[nmID]
+				ast.Inspect(gf.Decl.Body, func(x ast.Node) bool {
+					if as, ok := x.(*ast.AssignStmt); ok {
+						for _, l := range as.Lhs {
+							if ix, ok := l.(*ast.IndexExpr); ok {
+								if id, ok := ix.X.(*ast.Ident); ok && info.ObjectOf(id) == pobj {
+									mutators[gf.Obj] = gf
+								}
+							}
+						}
+					}
+					return true
+				})
+			}
+		}
+	}
+	// wrappers that forward their []Attribute parameter to a mutator are mutators too
+	for changed := true; changed; {
+		changed = false
+		for _, gf := range g.order {
+			if mutators[gf.Obj] != nil {
+				continue
+			}
+			ast.Inspect(gf.Decl.Body, func(x ast.Node) bool {
+				call, ok := x.(*ast.CallExpr)
+				if !ok {
+					return true
+				}
+				fn := calleeOf(info, call)
+				if fn == nil || mutators[fn] == nil {
+					return true
+				}
+				for _, a := range call.Args {
+					if id, ok := ast.Unparen(a).(*ast.Ident); ok {
+						if v, ok := info.ObjectOf(id).(*types.Var); ok && isAttrSlice(v.Type()) {
+							for _, prm := range gf.Decl.Type.Params.List {
+								for _, nmID := range prm.Names {
+									if info.Defs[nmID] == types.Object(v) {
+										mutators[gf.Obj] = gf
+										changed = true
+									}
+								}
+							}
+						}
+					}
+				}
+				return true
+			})
+		}
+	}
+	if len(mutators) == 0 {
+		c.ok(rule, pkgGenerator+"|no-attribute-list-mutators", "", "no generator function writes into an attribute list")
+		return
+	}
+	isDeepCopier := func(fn *types.Func) (bool, string) {
+		var fd *ast.FuncDecl
+		for _, gf := range g.order {
+			if gf.Obj == types.Object(fn) {
+				fd = gf.Decl
+			}
+		}
+		if fd == nil {
+			return false, "its source was not found"
+		}
+		var missing []string
+		for _, nf := range nestedFields {
+			rec := false
+			ast.Inspect(fd.Body, func(x ast.Node) bool {
+				if call, ok := x.(*ast.CallExpr); ok {
+					if cf := calleeOf(info, call); cf != nil && types.Object(cf) == types.Object(fn) && len(call.Args) == 1 {
+						if se, ok := ast.Unparen(call.Args[0]).(*ast.SelectorExpr); ok && se.Sel.Name == nf.field {
+							rec = true
+						}
+					}
+				}
+				return true
+			})
+			if !rec {
+				missing = append(missing, nf.typ+"."+nf.field)
+			}
+		}
+		if len(missing) > 0 {
+			return false, "it does not copy the nested lists " + strings.Join(missing, ", ")
+		}
+		return true, ""
+	}
+	n := 0
+	for _, gf := range g.order {
+		if mutators[gf.Obj] != nil {
+			continue
+		}
+		ord := 0
+		ast.Inspect(gf.Decl.Body, func(x ast.Node) bool {
+			call, ok := x.(*ast.CallExpr)
+			if !ok {
+				return true
+			}
+			fn := calleeOf(info, call)
+			if fn == nil || mutators[fn] == nil {
+				return true
+			}
+			for _, a := range call.Args {
+				t := info.TypeOf(a)
+				if t == nil || !isAttrSlice(t) {
+					continue
+				}
+				ord++
+				n++
+				why := ""
+				id, isID := ast.Unparen(a).(*ast.Ident)
+				if !isID {
+					why = "the list " + types.ExprString(a) + " of the parsed node is passed directly"
+				} else {
+					// its definition in this function
+					var rhs ast.Expr
+					ast.Inspect(gf.Decl.Body, func(y ast.Node) bool {
+						if as, ok := y.(*ast.AssignStmt); ok && len(as.Lhs) == 1 && len(as.Rhs) == 1 {
+							if lid, ok := as.Lhs[0].(*ast.Ident); ok && info.ObjectOf(lid) == info.ObjectOf(id) {
+								rhs = as.Rhs[0]
+							}
+						}
+						return true
+					})
+					cc, isCall := rhs.(*ast.CallExpr)
+					if !isCall {
+						why = id.Name + " is not the result of a copy function"
+					} else if cf := calleeOf(info, cc); cf == nil {
+						why = id.Name + " is not the result of a copy function"
+					} else if ok, reason := isDeepCopier(cf); !ok {
+						why = fmt.Sprintf("%s comes from %s, which is not a deep copy: %s", id.Name, cf.Name(), reason)
+					}
+				}
+				c.check(why == "", rule, fmt.Sprintf("%s|%s#%d|operates-on-deep-copy", gf.Key, fn.Name(), ord), c.pos(call.Pos()), "the rewritten attribute list is a deep copy of the parsed one",
+					fmt.Sprintf("%s hands an attribute list to %s, which rewrites it in place, but %s: the rewrite reaches the parsed template through the shared Then/Else slices of conditional attributes, so generating the same parsed file again (watch mode, language server) loses the user's class expression and its source-map entries", gf.Name, fn.Name(), why))
+			}
+			return true
+		})
+	}
+	c.count("calls_of_attribute_list_mutators", n)
+	c.floor(rule, 1)
+}
+
+// rawWriteCopiesEveryRune: C07.R7 — the range writer's raw write sends EVERY rune of its argument to the output and
+// counts it. The source map advances over the expression text rune by rune on its own; a writer that drops a rune
+// ("\r", say) makes every later target index of the expression differ from the byte the map points at.
+func rawWriteCopiesEveryRune(c *Ctx, rule string) {
+	gp := c.pkg("generator")
+	info := gp.TypesInfo
+	n := 0
+	for _, fd := range allFuncDecls(gp) {
+		if fd.Recv == nil || recvTypeName(fd.Recv.List[0].Type) != "RangeWriter" {
+			continue
+		}
+		var strParam types.Object
+		for _, prm := range fd.Type.Params.List {
+			if t := info.TypeOf(prm.Type); t != nil && t.String() == "string" && len(prm.Names) == 1 {
+				strParam = info.Defs[prm.Names[0]]
+			}
+		}
+		if strParam == nil {
+			continue
+		}
+		ast.Inspect(fd.Body, func(x ast.Node) bool {
+			rs, ok := x.(*ast.RangeStmt)
+			if !ok {
+				return true
+			}
+			id, ok := ast.Unparen(rs.X).(*ast.Ident)
+			if !ok || info.ObjectOf(id) != strParam {
+				return true
+			}
+			n++
+			why := ""
+			ast.Inspect(rs.Body, func(y ast.Node) bool {
+				if br, ok := y.(*ast.BranchStmt); ok {
+					why = "the loop over the runes contains `" + br.Tok.String() + "` (" + c.pos(br.Pos()) + "): some runes are skipped"
+				}
+				return true
+			})
+			unconditionalWrite := false
+			for _, st := range rs.Body.List {
+				ast.Inspect(st, func(y ast.Node) bool {
+					if _, isIf := y.(*ast.IfStmt); isIf && y != ast.Node(st) {
+						return true
+					}
+					if call, ok := y.(*ast.CallExpr); ok {
+						if se, ok := call.Fun.(*ast.SelectorExpr); ok && se.Sel.Name == "Write" {
+							if _, isIf := st.(*ast.IfStmt); !isIf {
+								unconditionalWrite = true
+							}
+						}
+					}
+					return true
+				})
+			}
+			if why == "" && !unconditionalWrite {
+				why = "the write of the rune is conditional"
+			}
+			c.check(why == "", rule, funcKey(gp, fd)+"|every-rune-written", c.pos(rs.Pos()), "every rune of the argument is written and counted",
+				fd.Name.Name+": "+why+". The source map walks the expression text rune by rune independently of the writer, so after a dropped rune (a \\r of a CRLF template inside a multi-line expression) every later source position maps to the wrong byte of the generated file")
+			return true
+		})
+	}
+	c.count("raw_write_loops", n)
+	c.floor(rule, 1)
 }
